@@ -14,3 +14,23 @@ for p in sorted(props.PROPS):
     out[p] = sorted(set(i for i in e["coverage"]["obligation_ids"] if not i.startswith("kani:")))
 json.dump(out, open(os.path.join(V, "obligations_baseline.json"), "w"), indent=0, sort_keys=True)
 print("baseline:", {k: len(v) for k, v in out.items()})
+
+# member functions of every impl block a unit extracts from (a function added later is reported as uncovered code)
+from vlib import build, units
+mem = {}
+for un, u in units.UNITS.items():
+    try:
+        path, xlog = build.assemble(un, u)
+    except build.Inconclusive as e:
+        print("cannot assemble", un, e); sys.exit(1)
+    cur = set()
+    for line in open(xlog):
+        p = line.rstrip("\n").split("\t")
+        if p[0] == "RULE" and p[2].startswith("MEMBERS "):
+            rest = p[2][len("MEMBERS "):]
+            hdr, names = (rest.split(" ", 1) + [""])[:2]
+            for nme in names.split(","):
+                if nme: cur.add("%s %s %s" % (os.path.relpath(p[1], build.REPO), hdr, nme))
+    mem[un] = sorted(cur)
+json.dump(mem, open(os.path.join(V, "members_baseline.json"), "w"), indent=0, sort_keys=True)
+print("member baseline:", {k: len(v) for k, v in mem.items()})
